@@ -1,7 +1,7 @@
 //! Single-game protocols (C07): Mindustry, Savage 2, FFOW, The Ship, Battalion 1944, Eco.
 use crate::canon::*;
 use crate::net::*;
-use gamedig::games::{ffow, mindustry, savage2};
+use gamedig::games::{ffow, mindustry, savage2, theship};
 
 pub fn entries() -> Vec<(&'static str, crate::EntryFn)> {
     vec![
@@ -11,6 +11,8 @@ pub fn entries() -> Vec<(&'static str, crate::EntryFn)> {
         ("savage2_dp", entry_savage2_dp),
         ("ffow", entry_ffow),
         ("ffow_dp", entry_ffow_dp),
+        ("theship", entry_theship),
+        ("theship_dp", entry_theship_dp),
     ]
 }
 
@@ -147,3 +149,65 @@ fn ffow_with(args: &[&str], default_port: bool) -> String {
 
 fn entry_ffow(args: &[&str]) -> String { ffow_with(args, false) }
 fn entry_ffow_dp(args: &[&str]) -> String { ffow_with(args, true) }
+
+// ---------------------------------------------------------------- The Ship
+
+fn show_ship_player(p: &theship::TheShipPlayer) -> String {
+    format!(
+        "({})",
+        [
+            show_str(&p.name),
+            p.score.to_string(),
+            p.duration.to_bits().to_string(),
+            p.deaths.to_string(),
+            p.money.to_string(),
+        ]
+        .join(";")
+    )
+}
+
+fn show_theship(r: &theship::Response) -> String {
+    format!(
+        "TS{{{}}}",
+        [
+            r.protocol_version.to_string(),
+            show_str(&r.name),
+            show_str(&r.map),
+            show_str(&r.game_mode),
+            show_str(&r.game_version),
+            show_list(&r.players, show_ship_player),
+            r.players_online.to_string(),
+            r.players_maximum.to_string(),
+            r.players_bots.to_string(),
+            crate::valve::show_server(&r.server_type),
+            show_bool(r.has_password),
+            show_bool(r.vac_secured),
+            show_opt(&r.port, |v| v.to_string()),
+            show_opt(&r.steam_id, |v| v.to_string()),
+            show_opt(&r.tv_port, |v| v.to_string()),
+            show_opt(&r.tv_name, |v| show_str(v)),
+            show_opt(&r.keywords, |v| show_str(v)),
+            crate::valve::show_map(&r.rules),
+            r.mode.to_string(),
+            r.witnesses.to_string(),
+            r.duration.to_string(),
+        ]
+        .join(";")
+    )
+}
+
+fn theship_with(args: &[&str], default_port: bool) -> String {
+    if args.len() < 3 {
+        return "bad-case".into();
+    }
+    let (Some(port), Some(r), Some(script)) =
+        (args[0].parse::<u16>().ok(), args[1].parse::<usize>().ok(), parse_net_args(&args[2 ..]))
+    else {
+        return "bad-case".into();
+    };
+    let port = if default_port { None } else { Some(port) };
+    run_q(script, || theship::query_with_timeout(&IP, port, timeout(r)), show_theship)
+}
+
+fn entry_theship(args: &[&str]) -> String { theship_with(args, false) }
+fn entry_theship_dp(args: &[&str]) -> String { theship_with(args, true) }
